@@ -370,18 +370,35 @@ theorem saveString_found {d : Doc} {s : List Byte} {x : StrNode} (hf : d.strings
       (some x.id, { d with strings := d.strings.map (fun y => if y.id == x.id then { y with refs := y.refs + 1 } else y) }) := by
   simp only [Doc.saveString, hf]
 
+/-- a new string: refused without an allocator call beyond the length limit, otherwise one allocator call -/
 theorem saveString_new {d : Doc} {s : List Byte} (hf : d.strings.find? (·.bytes == s) = none) :
     d.saveString s =
+      if s.length > d.maxStrLen then (none, { d with overflowed := true }) else
       if d.pl.failsAt (d.pl.calls + 1) then
         (none, { d with pl := (d.pl.alloc (s.length + d.strOverhead)).2, overflowed := true })
       else (some d.nextNode, { d with pl := (d.pl.alloc (s.length + d.strOverhead)).2, strings := ⟨d.nextNode, s, 1⟩ :: d.strings, nextNode := d.nextNode + 1 }) := by
   simp only [Doc.saveString, hf]
+  split
+  · rfl
   have h1 := PL.alloc_fst d.pl (s.length + d.strOverhead)
   generalize hq : d.pl.alloc (s.length + d.strOverhead) = q at h1 ⊢
   obtain ⟨ok, pl⟩ := q
   simp only at h1 ⊢
   subst h1
   cases d.pl.failsAt (d.pl.calls + 1) <;> simp
+
+/-- a new string beyond the length limit: refused, flag set, nothing else changes (no allocator call) -/
+theorem saveString_long {d : Doc} {s : List Byte} (hf : d.strings.find? (·.bytes == s) = none) (hlong : d.maxStrLen < s.length) :
+    d.saveString s = (none, { d with overflowed := true }) := by
+  rw [saveString_new hf, if_pos hlong]
+
+/-- a new string within the length limit: exactly one allocator call decides -/
+theorem saveString_short {d : Doc} {s : List Byte} (hf : d.strings.find? (·.bytes == s) = none) (hlen : s.length ≤ d.maxStrLen) :
+    d.saveString s =
+      if d.pl.failsAt (d.pl.calls + 1) then
+        (none, { d with pl := (d.pl.alloc (s.length + d.strOverhead)).2, overflowed := true })
+      else (some d.nextNode, { d with pl := (d.pl.alloc (s.length + d.strOverhead)).2, strings := ⟨d.nextNode, s, 1⟩ :: d.strings, nextNode := d.nextNode + 1 }) := by
+  rw [saveString_new hf, if_neg (Nat.not_lt.2 hlen)]
 
 /-- `saveString` keeps exact counts exact, with one more reference to the node it returns -/
 theorem saveString_exact {d d1 : Doc} {s : List Byte} {n : Nat} {rs : List Nat} (hs : StrOK d rs) (he : Exact d rs)
@@ -407,6 +424,8 @@ theorem saveString_exact {d d1 : Doc} {s : List Byte} {n : Nat} {rs : List Nat} 
       simpa [hne] using this
   | none =>
     rw [saveString_new hf] at h
+    split at h
+    · simp only [Prod.mk.injEq] at h; exact absurd h.1 (by simp)
     split at h
     · simp only [Prod.mk.injEq] at h; exact absurd h.1 (by simp)
     · simp only [Prod.mk.injEq, Option.some.injEq] at h
@@ -439,6 +458,8 @@ theorem saveString_some_frame {d d1 : Doc} {s : List Byte} {n : Nat} (h : d.save
     rw [saveString_new hf] at h
     split at h
     · simp only [Prod.mk.injEq] at h; exact absurd h.1 (by simp)
+    split at h
+    · simp only [Prod.mk.injEq] at h; exact absurd h.1 (by simp)
     · simp only [Prod.mk.injEq, Option.some.injEq] at h
       obtain ⟨_, rfl⟩ := h
       exact ⟨rfl, rfl, rfl, rfl, rfl⟩
@@ -463,6 +484,8 @@ theorem saveString_bytesNodup {d : Doc} {s : List Byte} (h : BytesNodup d) : Byt
     rw [this]; exact h
   | none =>
     rw [saveString_new hf]
+    split
+    · exact h
     split
     · exact h
     · show (List.map (fun (x : StrNode) => x.bytes) (_ :: d.strings)).Nodup
@@ -520,6 +543,8 @@ theorem saveString_bal {d : Doc} (s : List Byte) (h : Bal d) : Bal (d.saveString
   | none =>
     rw [saveString_new hf]
     unfold Bal at *
+    split
+    · exact h
     split
     · rename_i hfail
       show PL.net (d.pl.alloc _).2 = (d.strings.length : Int)
